@@ -111,7 +111,7 @@ func checkLockHygiene(w *World, r *Report, la *LockAnalysis) {
 				if path, fld, op, ok := mutexOp(info, c); ok && (op == "Lock" || op == "RLock") {
 					_ = path
 					if fld != nil {
-						mayAcq[u][ownerOfField(w, fld)+"."+fld.Name()] = true
+						mayAcq[u][w.canonField(fld)] = true
 					}
 				}
 			}
@@ -174,7 +174,7 @@ func checkLockHygiene(w *World, r *Report, la *LockAnalysis) {
 			for _, c := range callsInEvalOrder(n) {
 				if _, fld, op, ok := mutexOp(info, c); ok {
 					if (op == "Lock" || op == "RLock") && fld != nil && !isDefer {
-						to := ownerOfField(w, fld) + "." + fld.Name()
+						to := w.canonField(fld)
 						for from := range mayHeld {
 							edges = append(edges, lockEdge{from, to, c.Pos(), u.name})
 						}
@@ -502,7 +502,7 @@ func checkTypestate(w *World, r *Report, la *LockAnalysis) {
 		if a.Unit.fi == closeOf[a.Field] {
 			continue
 		}
-		base := fmt.Sprintf("%s#%s:%s", a.Unit.name, a.Field.Name(), map[bool]string{true: "append", false: "index-assign"}[isAppend])
+		base := fmt.Sprintf("%s#%s:%s", a.Unit.name, w.canonName(a.Field), map[bool]string{true: "append", false: "index-assign"}[isAppend])
 		seq[base]++
 		construct := fmt.Sprintf("%s/%d", base, seq[base])
 		// fresh object?
